@@ -125,11 +125,11 @@ mut("c18_strict_inverted", "C18", ["state:(*Materializer).applyChange#post.C18.r
 mut("c16_dfs_first_only", "C16", ["(*upcastRegistry).hasCycleDFS#post.C16.dfs.closed"],
     [("upcast.go", "\tfor _, upcaster := range r.upcasters[current] {\n\t\tif r.hasCycleDFS(upcaster.ToType, target, visited) {\n\t\t\treturn true\n\t\t}\n\t}\n\treturn false",
       "\tif ups := r.upcasters[current]; len(ups) > 0 {\n\t\treturn r.hasCycleDFS(ups[0].ToType, target, visited)\n\t}\n\treturn false")])
-mut("c16_dfs_no_mark", "C16", ["(*upcastRegistry).hasCycleDFS#post.C16.dfs.visited"],
+mut("c16_dfs_no_mark", "C16", ["(*upcastRegistry).hasCycleDFS#loop1.inv.C16.dfs.loop.target.entry"],
     [("upcast.go", "\tvisited[current] = true\n\n\tfor _, upcaster", "\tfor _, upcaster")])
 mut("c16_cycle_check_swapped", "C16", ["(*upcastRegistry).wouldCreateCycle#post.C16.cycle.exact"],
     [("upcast.go", "\treturn r.hasCycleDFS(toType, fromType, visited)", "\treturn r.hasCycleDFS(fromType, toType, visited)")])
-mut("c16_register_ignores_check", "C16", ["(*upcastRegistry).register#unlock.inv.upcastRegistry.mu.UpInv.acyclic"],
+mut("c16_register_ignores_check", "C16", ["(*upcastRegistry).register#cs.C16.register.exact"],
     [("upcast.go", "\tif r.wouldCreateCycle(fromType, toType) {\n\t\treturn fmt.Errorf(\"eventbus: upcast would create circular dependency\")\n\t}\n",
       "\tif r.wouldCreateCycle(fromType, toType) && len(r.upcasters[fromType]) == 0 {\n\t\treturn fmt.Errorf(\"eventbus: upcast would create circular dependency\")\n\t}\n")])
 # ---------------------------------------------------------------- sqlite SQL layer (C10/C11/C12)
@@ -144,7 +144,8 @@ mut("sqlite_save_swapped_args", "C10", ["stores/sqlite:(*SQLiteStore).SaveOffset
 mut("sqlite_load_swallows_error", "C10", ["stores/sqlite:(*SQLiteStore).LoadOffset#post.C10.sqlite.load.found"],
     [("stores/sqlite/store.go", "\treturn formatOffset(position), nil\n}", "\treturn formatOffset(position + 1), nil\n}")])
 mut("sqlite_batched_cursor_by_count", "C11", ["stores/sqlite:(*SQLiteStore).streamBatched#loop1.inv.C11.batched.cursor.preserve"],
-    [("stores/sqlite/store.go", "\t\tcurrentPos = lastPos\n", "\t\tcurrentPos += int64(batchCount)\n")])
+    [("stores/sqlite/store.go", "\t\tcurrentPos = lastPos\n", "\t\tcurrentPos += int64(batchCount)\n"),
+     ("stores/sqlite/store.go", "\t\tbatchCount, lastPos, cont := s.streamBatch(rows, eventCount, iterErr, yield)", "\t\tbatchCount, _, cont := s.streamBatch(rows, eventCount, iterErr, yield)")])
 mut("sqlite_batch_no_rows_err", "C11", ["stores/sqlite:(*SQLiteStore).streamBatch#post.C11.batch.completeOnlyIfNoErr"],
     [("stores/sqlite/store.go", "\tif err := rows.Err(); err != nil {\n\t\trows.Close() // Best effort close, iteration error takes precedence", "\tif err := rows.Err(); err != nil && batchCount == 0 {\n\t\trows.Close() // Best effort close, iteration error takes precedence")])
 # ---------------------------------------------------------------- decode target reuse (merge semantics of Unmarshal)
@@ -154,7 +155,7 @@ mut("c18_scratch_decode_target", "C18", ["state:(*typedCollectionApplier[T]).app
      ("state/materializer.go", "\t\ta.collection.store.Set(key, value)", "\t\ta.collection.store.Set(key, a.scratch)"),
     ])
 # ---------------------------------------------------------------- C03 scans
-mut("c03_unguarded_lastoffset_read", "C03", ["(*EventBus).persistEvent#guard.read.EventBus.storeMu"],
+mut("c03_unguarded_lastoffset_read", "C03", ["(*EventBus).persistEvent#guard.read.EventBus.lastOffset"],
     [("persist.go", "\tbus.storeMu.Unlock()\n\n\t// Observability: Track persistence complete", "\tbus.storeMu.Unlock()\n\t_ = bus.lastOffset\n\n\t// Observability: Track persistence complete")])
 
 def main():
